@@ -1,4 +1,5 @@
 import QModel.Core
+import QGen.C16
 /-!
 # C16 — outcome-probability bookkeeping (model of quara/utils/index_util.py,
 quara/objects/multinomial_distribution.py, quara/math/probability.py, StateEnsemble.state)
@@ -159,6 +160,27 @@ def showDist (r : Except Err Dist) : String :=
   | .error e => s!"err {e.toString}"
   | .ok d => s!"ok {showList toString d.shape} {showList showRat d.ps} {d.isZero}"
 
+/-! ## state ensembles produced by measurements (quara/objects/operators.py, state_ensemble.py)
+
+* `_compose_qoperations_MProcess_StateEnsemble`: `states.extend(states_local); ps.extend(ps_local)` in one loop over the old
+  ensemble, shape = old shape + instrument shape;
+* `_tensor_product_StateEnsemble_StateEnsemble`: the nested loops over both ensembles, shape = shape1 + shape2;
+* `StateEnsemble.state(outcome)`: serial index of the tuple, then list access. -/
+
+/-- `StateEnsemble.state(outcome)` for a tuple outcome: serial index w.r.t. the distribution's shape, then `self._states[serial]`
+(`none` = the ValueError of the index map or Python's IndexError). -/
+def ensGet {α : Type} (xs : List α) (shape mi : List Nat) : Option α :=
+  match serialFromMulti shape mi with
+  | some s => xs[s]?
+  | none => none
+
+/-- the loop of `_compose_qoperations_MProcess_StateEnsemble`: one block per old member, appended in order -/
+def extendLoop {α β : Type} (old : List α) (f : α → List β) : List β := old.flatMap f
+
+/-- the nested loops of `_tensor_product_StateEnsemble_StateEnsemble` -/
+def nestedLoop {α β γ : Type} (xs : List α) (ys : List β) (f : α → β → γ) : List γ :=
+  xs.flatMap fun x => ys.map (f x)
+
 def handle (args : List String) : Option String :=
   match args with
   | ["multi", lens, s] => do
@@ -173,6 +195,35 @@ def handle (args : List String) : Option String :=
       match serialFromMulti lens idx with
       | some s => some s!"ok {s}"
       | none => some "err lenMismatch"
+  | ["gmulti", lens, s] => do
+      -- the definition regenerated from index_util.py on this run (QGen/C16.lean); zero lengths are rejected as Python does
+      let lens ← parseList? parseNat? lens
+      let s ← parseNat? s
+      if lens.all (0 < ·) then
+        some s!"ok {showList toString (QGen.C16.multiFromSerial (lens.map Int.ofNat) (Int.ofNat s))}"
+      else some "err zerodiv"
+  | ["gserial", lens, idx] => do
+      let lens ← parseList? parseNat? lens
+      let idx ← parseList? parseNat? idx
+      match QGen.C16.serialFromMulti (lens.map Int.ofNat) (idx.map Int.ofNat) with
+      | some s => some s!"ok {s}"
+      | none => some "err lenMismatch"
+  | ["ensget", labels, shape, mi] => do
+      let labels ← parseList? parseNat? labels
+      let shape ← parseList? parseNat? shape
+      let mi ← parseList? parseNat? mi
+      match ensGet labels shape mi with
+      | some l => some s!"ok {l}"
+      | none => some "err index"
+  | ["extend", n, m] => do
+      -- labels 1000*i + j of the members produced from old member i, local outcome j
+      let n ← parseNat? n
+      let m ← parseNat? m
+      some s!"ok {showList toString (extendLoop (List.range n) fun i => (List.range m).map fun j => 1000 * i + j)}"
+  | ["nested", n1, n2] => do
+      let n1 ← parseNat? n1
+      let n2 ← parseNat? n2
+      some s!"ok {showList toString (nestedLoop (List.range n1) (List.range n2) fun i j => 1000 * i + j)}"
   | ["pdget", ps, shape, idx] => do
       let ps ← parseList? parseRat? ps
       let shape ← parseList? parseNat? shape
